@@ -30,12 +30,28 @@ type Parsed struct {
 	// NonCanonical: some number uses a longer form than its value needs (the
 	// encoder never emits those).
 	NonCanonical bool
+	// NonCanonicalKind: the same, per number kind.
+	NonCanonicalKind [4]bool
+	// Nums lists every number of the stream in order (only with
+	// Options.RecordNums).
+	Nums []NumRec
 	// Opcodes seen, per mode (coverage bookkeeping).
 	StylingOpcodes, DrawingOpcodes [256]bool
 }
 
+// NumRec is one encoded number.
+type NumRec struct {
+	Kind    NumKind
+	Width   int
+	Payload uint32
+	Value   float32
+	Pos     int
+}
+
 // Options relaxes the reference where a caller wants to study a sub-language.
 type Options struct {
+	// RecordNums fills Parsed.Nums.
+	RecordNums bool
 	// AllowUnorderedMIDs accepts metadata chunks in any order and repeated
 	// (the specification forbids this; only used to classify inputs).
 	AllowUnorderedMIDs bool
@@ -88,6 +104,7 @@ type parser struct {
 	b   []byte
 	pos int
 	p   *Parsed
+	rec bool
 }
 
 func (s *parser) fail(at int, why string) *Parsed {
@@ -103,12 +120,17 @@ func (s *parser) num(k NumKind) (float32, uint32, bool) {
 		return 0, 0, false
 	}
 	v := Value(k, u, n)
+	if s.rec {
+		s.p.Nums = append(s.p.Nums, NumRec{Kind: k, Width: n, Payload: u, Value: v, Pos: s.pos})
+	}
 	if k == Natural {
 		if n > NaturalWidth(u) {
 			s.p.NonCanonical = true
+			s.p.NonCanonicalKind[k] = true
 		}
 	} else if w, _ := ExactWidth(k, v); n > w {
 		s.p.NonCanonical = true
+		s.p.NonCanonicalKind[k] = true
 	}
 	s.pos += n
 	return v, u, true
@@ -122,7 +144,7 @@ func ParseOpt(b []byte, opt Options) *Parsed {
 	for i := range p.Palette {
 		p.Palette[i] = Black
 	}
-	s := &parser{b: b, p: p}
+	s := &parser{b: b, p: p, rec: opt.RecordNums}
 
 	// Magic identifier.
 	if len(b) < 4 || b[0] != Magic[0] || b[1] != Magic[1] || b[2] != Magic[2] || b[3] != Magic[3] {
